@@ -735,6 +735,7 @@ type HarnessResult struct {
 	Infeasible   int64
 	Inconclusive []string
 	InconclusivePaths int64
+	Decisions    int64 // branch / choice / schedule decisions taken, summed over paths
 	Failures     []*Failure
 	Covers       map[string]int64
 	MustCover    []string
@@ -898,6 +899,7 @@ func (ex *Explorer) runPath(w *worker, prefix []Decision) {
 	res := ex.res
 	res.Paths++
 	res.Steps += ps.steps
+	res.Decisions += int64(len(ps.taken))
 	res.Asserts += int64(ps.asserts)
 	res.Queries += int64(ps.queries)
 	if len(ps.taken) > res.MaxDepth {
